@@ -79,11 +79,13 @@ ObsWr(e) ==
        lenok == WrLenOK(b)
        w == IF Len(b) >= 12 THEN DecHeader(Take(b, 12)).v ELSE r.hdr
        clr == WClrTab[l]
-       kind == IF w.ty \in {1, 2, 3} THEN ReplyKind(w.ty) ELSE "AuthenReply"
-       d == IF lenok THEN Dec(kind, clr) ELSE Bad
        key == << r.c, r.sid >>
        scope == IF ScopeIdx(r.c) > 0 THEN ScopeName(r.c) ELSE ""
        t == Get(o.t, key, T0)
+       \* a session in the middle of an authentication exchange is answered by its continuation with an
+       \* authentication reply, whatever packet type the request header carries
+       kind == IF t.stage # "idle" THEN "AuthenReply" ELSE IF w.ty \in {1, 2, 3} THEN ReplyKind(w.ty) ELSE "AuthenReply"
+       d == IF lenok THEN Dec(kind, clr) ELSE Bad
        status == IF d.ok THEN d.v.status ELSE -1
        amb == Ambiguous(r.b)
        may == ScopeIdx(r.c) > 0 /\ MayPass(cfg, scope, t, r.hdr, r.b)
@@ -92,19 +94,19 @@ ObsWr(e) ==
           << o.pend /\ ~(lenok /\ d.ok /\ Mirrors(r.hdr, w)), "C06" >>,
           << o.pend /\ o.wr >= 1, "C07" >>,
           \* C10 soundness and completeness (requests that parse under two layouts are left open)
-          << o.pend /\ w.ty = 1 /\ status = 1 /\ ~amb /\ ~may, "C10" >>,
-          << o.pend /\ r.hdr.ty = 1 /\ d.ok /\ ~amb /\ may /\ status # 1, "C10" >>,
+          << o.pend /\ kind = "AuthenReply" /\ status = 1 /\ ~amb /\ ~may, "C10" >>,
+          << o.pend /\ kind = "AuthenReply" /\ d.ok /\ ~amb /\ may /\ status # 1, "C10" >>,
           \* C12
-          << o.pend /\ w.ty = 3 /\ status = 1 /\ ~(Len(o.sinks) = 1 /\ RecordMatches(o.sinks[1], r.b)), "C12" >>,
-          << o.pend /\ r.hdr.ty = 3 /\ Get(ms, key, NoH).k = "none" /\ d.ok /\ ScopeIdx(r.c) > 0 /\ AcctMustError(scope, r.b) /\ status # 2, "C12" >>,
+          << o.pend /\ kind = "AcctReply" /\ status = 1 /\ ~(Len(o.sinks) = 1 /\ RecordMatches(o.sinks[1], r.b)), "C12" >>,
+          << o.pend /\ r.hdr.ty = 3 /\ t.stage = "idle" /\ d.ok /\ ScopeIdx(r.c) > 0 /\ AcctMustError(scope, r.b) /\ status # 2, "C12" >>,
           \* C11
-          << o.pend /\ r.hdr.ty = 2 /\ Get(ms, key, NoH).k = "none" /\ d.ok /\ ScopeIdx(r.c) > 0
+          << o.pend /\ r.hdr.ty = 2 /\ t.stage = "idle" /\ d.ok /\ ScopeIdx(r.c) > 0
              /\ AuthzViolation(cfg, scope, r.b, d.v), "C11" >> })
    IN IF o.pend /\ o.inv = 0
       THEN \* written by the reader, not by a handler: the key-mismatch error packet (judged by C19 in the server family)
            [o EXCEPT !.wr = @ + 1, !.reps = Put(@, key, Append(Get(@, key, <<>>), b))]
       ELSE [o EXCEPT !.wr = @ + 1, !.bad = @ \cup new,
-                !.t = IF d.ok /\ w.ty = 1 THEN Put(@, key, TNext(t, r.hdr, r.b, status)) ELSE @,
+                !.t = IF d.ok /\ kind = "AuthenReply" THEN Put(@, key, TNext(t, r.hdr, r.b, status)) ELSE @,
                 !.reps = Put(@, key, Append(Get(@, key, <<>>), b))]
 
 \* model layer: the reply is the one the reference handlers produce
@@ -113,13 +115,14 @@ ModelWrOK(e) ==
        key == << r.c, r.sid >>
        w == DecHeader(Take(e.b, 12)).v
        clr == WClrTab[l]
-       d == Dec(ReplyKind(w.ty), clr)
+       kind == IF Get(ms, key, NoH).k # "none" THEN "AuthenReply" ELSE ReplyKind(w.ty)
+       d == Dec(kind, clr)
        x == Handle(cfg, ScopeName(r.c), Get(ms, key, NoH), r.hdr, r.b)
    IN /\ WrLenOK(e.b) /\ w.ty \in {1, 2, 3} /\ d.ok
       /\ (x.anyst \/ d.v.status = x.st)
-      /\ (w.ty = 1 => (x.anyst \/ d.v.flags = x.fl))
+      /\ (kind = "AuthenReply" => (x.anyst \/ d.v.flags = x.fl))
       /\ (x.anymsg \/ d.v.msg = x.msg)
-      /\ (w.ty # 2 => d.v.data = <<>>)
+      /\ (kind # "AuthorReply" => d.v.data = <<>>)
       /\ (x.sink <=> Len(o.sinks) = 1)
 ModelNext(e) == LET r == o.req IN Handle(cfg, ScopeName(r.c), Get(ms, << r.c, r.sid >>, NoH), r.hdr, r.b).nx
 
